@@ -34,6 +34,11 @@ func VerifNew(this discovery.Member, c *config.Config, primary, backup *partitio
 
 func (r *RoutingTable) VerifSetOwned(n uint64) { r.ownedPartitionCount = n }
 
+// VerifSetNumMembers sets the member count this member currently sees; VerifMarkBootstrapped marks it bootstrapped.
+func (r *RoutingTable) VerifSetNumMembers(n int32)      { r.numMembers = n }
+func (r *RoutingTable) VerifMarkBootstrapped()          { r.markBootstrapped() }
+func (r *RoutingTable) VerifSetThis(m discovery.Member) { r.this = m }
+
 // VerifAddMember registers a member in the routing table's member list (as a join event would).
 func (r *RoutingTable) VerifAddMember(m discovery.Member) {
 	r.members.Lock()
